@@ -2176,6 +2176,49 @@ let f64res_rec f f0 = function
 | Bits b -> f b
 | Infinite -> f0
 
+(** val round_rat : coq_Z -> coq_Z -> coq_Z -> coq_Z -> f64res **)
+
+let round_rat p emax num den =
+  let bl = Z.sub (Z.log2 num) (Z.log2 den) in
+  let ge =
+    if Z.leb Z0 bl
+    then Z.leb (Z.mul den (Z.pow (Zpos (Coq_xO Coq_xH)) bl)) num
+    else Z.leb den (Z.mul num (Z.pow (Zpos (Coq_xO Coq_xH)) (Z.opp bl)))
+  in
+  let e = if ge then bl else Z.sub bl (Zpos Coq_xH) in
+  let emin = Z.sub (Zpos Coq_xH) emax in
+  if Z.ltb e emin
+  then Bits
+         (rne_div
+           (Z.mul num
+             (Z.pow (Zpos (Coq_xO Coq_xH))
+               (Z.sub (Z.sub p (Zpos Coq_xH)) emin))) den)
+  else let s = Z.sub e (Z.sub p (Zpos Coq_xH)) in
+       let q =
+         if Z.leb Z0 s
+         then rne_div num (Z.mul den (Z.pow (Zpos (Coq_xO Coq_xH)) s))
+         else rne_div (Z.mul num (Z.pow (Zpos (Coq_xO Coq_xH)) (Z.opp s))) den
+       in
+       if Z.eqb q (Z.pow (Zpos (Coq_xO Coq_xH)) p)
+       then let e' = Z.add e (Zpos Coq_xH) in
+            let q' = Z.pow (Zpos (Coq_xO Coq_xH)) (Z.sub p (Zpos Coq_xH)) in
+            if Z.ltb emax e'
+            then Infinite
+            else Bits
+                   (Z.add
+                     (Z.mul (Z.add e' emax)
+                       (Z.pow (Zpos (Coq_xO Coq_xH)) (Z.sub p (Zpos Coq_xH))))
+                     (Z.sub q'
+                       (Z.pow (Zpos (Coq_xO Coq_xH)) (Z.sub p (Zpos Coq_xH)))))
+       else if Z.ltb emax e
+            then Infinite
+            else Bits
+                   (Z.add
+                     (Z.mul (Z.add e emax)
+                       (Z.pow (Zpos (Coq_xO Coq_xH)) (Z.sub p (Zpos Coq_xH))))
+                     (Z.sub q
+                       (Z.pow (Zpos (Coq_xO Coq_xH)) (Z.sub p (Zpos Coq_xH)))))
+
 (** val round_pos : coq_Z -> coq_Z -> f64res **)
 
 let round_pos m e =
@@ -2196,74 +2239,9 @@ let round_pos m e =
               then Zpos Coq_xH
               else Z.pow (Zpos (Coq_xO (Coq_xI (Coq_xO Coq_xH)))) (Z.opp e)
             in
-            let bl = Z.sub (Z.log2 num) (Z.log2 den) in
-            let ge =
-              if Z.leb Z0 bl
-              then Z.leb (Z.mul den (Z.pow (Zpos (Coq_xO Coq_xH)) bl)) num
-              else Z.leb den
-                     (Z.mul num (Z.pow (Zpos (Coq_xO Coq_xH)) (Z.opp bl)))
-            in
-            let e0 = if ge then bl else Z.sub bl (Zpos Coq_xH) in
-            if Z.ltb e0 (Zneg (Coq_xO (Coq_xI (Coq_xI (Coq_xI (Coq_xI (Coq_xI
-                 (Coq_xI (Coq_xI (Coq_xI Coq_xH))))))))))
-            then Bits
-                   (rne_div
-                     (Z.mul num
-                       (Z.pow (Zpos (Coq_xO Coq_xH)) (Zpos (Coq_xO (Coq_xI
-                         (Coq_xO (Coq_xO (Coq_xI (Coq_xI (Coq_xO (Coq_xO
-                         (Coq_xO (Coq_xO Coq_xH))))))))))))) den)
-            else let s =
-                   Z.sub e0 (Zpos (Coq_xO (Coq_xO (Coq_xI (Coq_xO (Coq_xI
-                     Coq_xH))))))
-                 in
-                 let q =
-                   if Z.leb Z0 s
-                   then rne_div num
-                          (Z.mul den (Z.pow (Zpos (Coq_xO Coq_xH)) s))
-                   else rne_div
-                          (Z.mul num (Z.pow (Zpos (Coq_xO Coq_xH)) (Z.opp s)))
-                          den
-                 in
-                 if Z.eqb q
-                      (Z.pow (Zpos (Coq_xO Coq_xH)) (Zpos (Coq_xI (Coq_xO
-                        (Coq_xI (Coq_xO (Coq_xI Coq_xH)))))))
-                 then let e' = Z.add e0 (Zpos Coq_xH) in
-                      let q' =
-                        Z.pow (Zpos (Coq_xO Coq_xH)) (Zpos (Coq_xO (Coq_xO
-                          (Coq_xI (Coq_xO (Coq_xI Coq_xH))))))
-                      in
-                      if Z.ltb (Zpos (Coq_xI (Coq_xI (Coq_xI (Coq_xI (Coq_xI
-                           (Coq_xI (Coq_xI (Coq_xI (Coq_xI Coq_xH)))))))))) e'
-                      then Infinite
-                      else Bits
-                             (Z.add
-                               (Z.mul
-                                 (Z.add e' (Zpos (Coq_xI (Coq_xI (Coq_xI
-                                   (Coq_xI (Coq_xI (Coq_xI (Coq_xI (Coq_xI
-                                   (Coq_xI Coq_xH)))))))))))
-                                 (Z.pow (Zpos (Coq_xO Coq_xH)) (Zpos (Coq_xO
-                                   (Coq_xO (Coq_xI (Coq_xO (Coq_xI
-                                   Coq_xH))))))))
-                               (Z.sub q'
-                                 (Z.pow (Zpos (Coq_xO Coq_xH)) (Zpos (Coq_xO
-                                   (Coq_xO (Coq_xI (Coq_xO (Coq_xI
-                                   Coq_xH)))))))))
-                 else if Z.ltb (Zpos (Coq_xI (Coq_xI (Coq_xI (Coq_xI (Coq_xI
-                           (Coq_xI (Coq_xI (Coq_xI (Coq_xI Coq_xH)))))))))) e0
-                      then Infinite
-                      else Bits
-                             (Z.add
-                               (Z.mul
-                                 (Z.add e0 (Zpos (Coq_xI (Coq_xI (Coq_xI
-                                   (Coq_xI (Coq_xI (Coq_xI (Coq_xI (Coq_xI
-                                   (Coq_xI Coq_xH)))))))))))
-                                 (Z.pow (Zpos (Coq_xO Coq_xH)) (Zpos (Coq_xO
-                                   (Coq_xO (Coq_xI (Coq_xO (Coq_xI
-                                   Coq_xH))))))))
-                               (Z.sub q
-                                 (Z.pow (Zpos (Coq_xO Coq_xH)) (Zpos (Coq_xO
-                                   (Coq_xO (Coq_xI (Coq_xO (Coq_xI
-                                   Coq_xH)))))))))
+            round_rat (Zpos (Coq_xI (Coq_xO (Coq_xI (Coq_xO (Coq_xI
+              Coq_xH)))))) (Zpos (Coq_xI (Coq_xI (Coq_xI (Coq_xI (Coq_xI
+              (Coq_xI (Coq_xI (Coq_xI (Coq_xI Coq_xH)))))))))) num den
 
 (** val round_f64 : decimal -> f64res **)
 
@@ -2279,6 +2257,108 @@ let round_f64 d =
   else (match round_pos d.mant d.exp10 with
         | Bits b -> Bits (Z.add sign b)
         | Infinite -> Infinite)
+
+(** val narrow_f32 : coq_Z -> coq_Z option **)
+
+let narrow_f32 bits =
+  let sign =
+    Z.div bits
+      (Z.pow (Zpos (Coq_xO Coq_xH)) (Zpos (Coq_xI (Coq_xI (Coq_xI (Coq_xI
+        (Coq_xI Coq_xH)))))))
+  in
+  let e =
+    Z.modulo
+      (Z.div bits
+        (Z.pow (Zpos (Coq_xO Coq_xH)) (Zpos (Coq_xO (Coq_xO (Coq_xI (Coq_xO
+          (Coq_xI Coq_xH))))))))
+      (Z.pow (Zpos (Coq_xO Coq_xH)) (Zpos (Coq_xI (Coq_xI (Coq_xO Coq_xH)))))
+  in
+  let m =
+    Z.modulo bits
+      (Z.pow (Zpos (Coq_xO Coq_xH)) (Zpos (Coq_xO (Coq_xO (Coq_xI (Coq_xO
+        (Coq_xI Coq_xH)))))))
+  in
+  let s32 =
+    Z.mul sign
+      (Z.pow (Zpos (Coq_xO Coq_xH)) (Zpos (Coq_xI (Coq_xI (Coq_xI (Coq_xI
+        Coq_xH))))))
+  in
+  if Z.eqb e (Zpos (Coq_xI (Coq_xI (Coq_xI (Coq_xI (Coq_xI (Coq_xI (Coq_xI
+       (Coq_xI (Coq_xI (Coq_xI Coq_xH)))))))))))
+  then if Z.eqb m Z0
+       then Some
+              (Z.add s32
+                (Z.mul (Zpos (Coq_xI (Coq_xI (Coq_xI (Coq_xI (Coq_xI (Coq_xI
+                  (Coq_xI Coq_xH))))))))
+                  (Z.pow (Zpos (Coq_xO Coq_xH)) (Zpos (Coq_xI (Coq_xI (Coq_xI
+                    (Coq_xO Coq_xH))))))))
+       else None
+  else if (&&) (Z.eqb e Z0) (Z.eqb m Z0)
+       then Some s32
+       else if Z.eqb e Z0
+            then let den =
+                   Z.pow (Zpos (Coq_xO Coq_xH)) (Zpos (Coq_xO (Coq_xI (Coq_xO
+                     (Coq_xO (Coq_xI (Coq_xI (Coq_xO (Coq_xO (Coq_xO (Coq_xO
+                     Coq_xH)))))))))))
+                 in
+                 (match round_rat (Zpos (Coq_xO (Coq_xO (Coq_xO (Coq_xI
+                          Coq_xH))))) (Zpos (Coq_xI (Coq_xI (Coq_xI (Coq_xI
+                          (Coq_xI (Coq_xI Coq_xH))))))) m den with
+                  | Bits b -> Some (Z.add s32 b)
+                  | Infinite ->
+                    Some
+                      (Z.add s32
+                        (Z.mul (Zpos (Coq_xI (Coq_xI (Coq_xI (Coq_xI (Coq_xI
+                          (Coq_xI (Coq_xI Coq_xH))))))))
+                          (Z.pow (Zpos (Coq_xO Coq_xH)) (Zpos (Coq_xI (Coq_xI
+                            (Coq_xI (Coq_xO Coq_xH)))))))))
+            else if Z.leb (Zpos (Coq_xI (Coq_xI (Coq_xO (Coq_xO (Coq_xI
+                      (Coq_xI (Coq_xO (Coq_xO (Coq_xO (Coq_xO
+                      Coq_xH))))))))))) e
+                 then let num =
+                        Z.mul
+                          (Z.add
+                            (Z.pow (Zpos (Coq_xO Coq_xH)) (Zpos (Coq_xO
+                              (Coq_xO (Coq_xI (Coq_xO (Coq_xI Coq_xH))))))) m)
+                          (Z.pow (Zpos (Coq_xO Coq_xH))
+                            (Z.sub e (Zpos (Coq_xI (Coq_xI (Coq_xO (Coq_xO
+                              (Coq_xI (Coq_xI (Coq_xO (Coq_xO (Coq_xO (Coq_xO
+                              Coq_xH)))))))))))))
+                      in
+                      let den = Zpos Coq_xH in
+                      (match round_rat (Zpos (Coq_xO (Coq_xO (Coq_xO (Coq_xI
+                               Coq_xH))))) (Zpos (Coq_xI (Coq_xI (Coq_xI
+                               (Coq_xI (Coq_xI (Coq_xI Coq_xH))))))) num den with
+                       | Bits b -> Some (Z.add s32 b)
+                       | Infinite ->
+                         Some
+                           (Z.add s32
+                             (Z.mul (Zpos (Coq_xI (Coq_xI (Coq_xI (Coq_xI
+                               (Coq_xI (Coq_xI (Coq_xI Coq_xH))))))))
+                               (Z.pow (Zpos (Coq_xO Coq_xH)) (Zpos (Coq_xI
+                                 (Coq_xI (Coq_xI (Coq_xO Coq_xH)))))))))
+                 else let num =
+                        Z.add
+                          (Z.pow (Zpos (Coq_xO Coq_xH)) (Zpos (Coq_xO (Coq_xO
+                            (Coq_xI (Coq_xO (Coq_xI Coq_xH))))))) m
+                      in
+                      let den =
+                        Z.pow (Zpos (Coq_xO Coq_xH))
+                          (Z.sub (Zpos (Coq_xI (Coq_xI (Coq_xO (Coq_xO
+                            (Coq_xI (Coq_xI (Coq_xO (Coq_xO (Coq_xO (Coq_xO
+                            Coq_xH))))))))))) e)
+                      in
+                      (match round_rat (Zpos (Coq_xO (Coq_xO (Coq_xO (Coq_xI
+                               Coq_xH))))) (Zpos (Coq_xI (Coq_xI (Coq_xI
+                               (Coq_xI (Coq_xI (Coq_xI Coq_xH))))))) num den with
+                       | Bits b -> Some (Z.add s32 b)
+                       | Infinite ->
+                         Some
+                           (Z.add s32
+                             (Z.mul (Zpos (Coq_xI (Coq_xI (Coq_xI (Coq_xI
+                               (Coq_xI (Coq_xI (Coq_xI Coq_xH))))))))
+                               (Z.pow (Zpos (Coq_xO Coq_xH)) (Zpos (Coq_xI
+                                 (Coq_xI (Coq_xI (Coq_xO Coq_xH)))))))))
 
 type numclass =
 | CU64 of coq_Z
